@@ -49,7 +49,9 @@ def _cls(tok, col):
     """type class of a key shape (first letter) or of a value (int or one of the special values)"""
     if col == 0:
         return tok[0]
-    return "i" if re.fullmatch(r"-?\d+", tok) else tok
+    if re.fullmatch(r"-?\d+", tok):
+        return "i"
+    return {"h": "H", "g": "H"}.get(tok, tok)      # the two hash values have one type
 
 
 def stale_key_pattern(impl_lm, spec_lm):
